@@ -40,16 +40,21 @@ for meta_path in sorted(glob.glob(os.path.join(src, "*", "*", "meta.json")) + gl
                                shell=True, capture_output=True, text=True)
             tests = t.stdout.strip()
         env2 = dict(os.environ, QVERIF_REPO=wt)
-        chk = subprocess.run([os.path.join(VERIF, "vcheck"), prop, "--tier", "quick"], env=env2, capture_output=True, text=True, timeout=3600, cwd=VERIF)
+        try:
+            chk = subprocess.run([os.path.join(VERIF, "vcheck"), prop, "--tier", "quick"], env=env2, capture_output=True, text=True, timeout=2400, cwd=VERIF)
+        except subprocess.TimeoutExpired:
+            rows.append(dict(tag=tag, prop=prop, demo_unchanged=r0.returncode, demo_changed=r1.returncode, tests=tests, check_exit="timeout", n_violation_lines=0,
+                             obligations=[], tail=["the check did not finish within 2400 s"]))
+            print(json.dumps(rows[-1]), flush=True)
+            continue
         viol = [l for l in chk.stdout.splitlines() if l.startswith("VIOLATION")]
         obs = sorted({l.strip().replace("refuted obligation: ", "") for l in chk.stdout.splitlines() if "refuted obligation" in l})
         rows.append(dict(tag=tag, prop=prop, demo_unchanged=r0.returncode, demo_changed=r1.returncode, tests=tests,
                          check_exit=chk.returncode, n_violation_lines=len(viol), obligations=obs[:6], tail=chk.stdout.strip().splitlines()[-1:]))
+        print(json.dumps(rows[-1]), flush=True)
     finally:
         subprocess.run(["git", "-C", "/repo", "worktree", "remove", "--force", scratch + "/wt"], capture_output=True)
         shutil.rmtree(scratch, ignore_errors=True)
-for r in rows:
-    print(json.dumps(r), flush=True)
 if src.endswith("seeded"):
     # merge into the committed table (one row per seeded change, latest evaluation wins)
     path = os.path.join(VERIF, "seeded_results.json")
